@@ -1,6 +1,10 @@
 """Exact-rational / mpmath oracles, used ONLY to search for concrete failing inputs on the
 implementation's outputs (never as a proof, never for a pass verdict on a proved clause)."""
 import re
+import sys as _sys
+if hasattr(_sys, "set_int_max_str_digits"):
+    _sys.set_int_max_str_digits(0)   # Display of 20-exponent-bit formats prints hundreds of thousands of digits
+import sys
 from fractions import Fraction
 
 try:
